@@ -5,13 +5,16 @@
 package c15
 
 import (
+	"bufio"
 	gocontext "context"
 	"encoding/json"
 	"errors"
 	"fmt"
 	"io"
+	"net"
 	"net/http"
 	"os"
+	"time"
 	"strings"
 	"testing"
 
@@ -22,8 +25,8 @@ import (
 	"github.com/flamego/flamego/verifharness/internal/rt"
 )
 
-const rule = "case = environment in {development, production, test} x Recovery placed as application middleware, group handler or first route handler x 0..2 recording middleware before it x 1..3 later handlers, each of the shape func(Context), func(ResponseWriter, *Request) or http.HandlerFunc and a program over {write a status, write body bytes, Next(), cancel the request context, panic(value), require an unresolvable dependency} with panic values of kinds {string, error, runtime error, struct, http.ErrAbortHandler, custom error, integer, typed-nil error, slice, map, struct with a slice field}; GET or HEAD; the environment may change between construction and requests x a sequence of 1..4 requests mixing the panicking route and a healthy one. " +
-	"Oracle: nothing escapes ServeHTTP; an interpreter of the handler programs says what had been sent before the panic: status = that status, or 500 if none; body = the earlier bytes followed by a tail that (development) shows the panic value, (otherwise) shows neither the value nor stack frames; every recording middleware logged its code after Next(); a healthy request answers exactly like on a fresh instance. " +
+const rule = "case = environment in {development, production, test} x Recovery placed as application middleware, group handler or first route handler x 0..2 recording middleware before it x 1..3 later handlers, each of the shape func(Context), func(ResponseWriter, *Request) or http.HandlerFunc and a program over {write a status, write body bytes, Next(), cancel the request context, panic(value) - from ordinary code or from a function whose source file cannot be read -, require an unresolvable dependency, write with a registered before-function that panics, WriteHeader with a code the underlying writer rejects by panicking, a Hijack that fails} with panic values of kinds {string, error, runtime error, struct, http.ErrAbortHandler, custom error, integer, typed-nil error, slice, map, struct with a slice field}; GET or HEAD; the environment may change between construction and requests x a sequence of 1..4 requests mixing the panicking route and a healthy one. " +
+	"Oracle: nothing escapes ServeHTTP and every request returns (60 s watchdog); an interpreter of the handler programs says what had been sent before the panic: status = that status, or 500 if none; body = the earlier bytes followed by a tail that (development) shows the panic value, (otherwise) shows neither the value nor stack frames; every recording middleware logged its code after Next(); a healthy request answers exactly like on a fresh instance. " +
 	"non-trivial = a case with a panic after a write, or inside a nested Next(), or with a non-string value, or with a failed dependency resolution, or followed by a healthy request; distinct by case text"
 
 var assumptions = []string{
@@ -31,10 +34,16 @@ var assumptions = []string{
 	"the process-global environment (SetEnv) is set per case; cases run one at a time in a process",
 }
 
-func TestMain(m *testing.M) { evid.Main(m, "C15", rule, assumptions) }
+func TestMain(m *testing.M) {
+	evid.Watchdog(60 * time.Second) // a Recovery that never returns (a lock never released) is a violation too
+	evid.Main(m, "C15", rule, assumptions)
+}
 
 // H is a handler program: ops "s<code>", "b", "n", "c" (cancel the request
-// context), "p:<kind>", "inj".
+// context), "p:<kind>", "pg:<kind>" (the same from a function whose source file
+// does not exist, as generated code compiled elsewhere), "inj", "bfw" (register
+// a before-function that panics, then write body bytes), "xc" (WriteHeader with
+// a code the underlying writer rejects by panicking), "hj" (a Hijack that fails).
 type H struct {
 	Ops []string `json:"ops"`
 	// Shape: "" = func(Context); "http" = func(http.ResponseWriter, *http.Request);
@@ -123,6 +132,10 @@ func panicToken(kind string) string {
 		return "12345"
 	case "inj":
 		return "unmapped" // the unresolvable type is named (C04); the wording around it is free
+	case "before":
+		return "before-boom"
+	case "badcode":
+		return "invalid WriteHeader code"
 	}
 	return "" // typednil: only the PANIC page itself is required
 }
@@ -164,12 +177,38 @@ func (m *sim) run() {
 				m.write(code, "")
 			case op == "b":
 				m.write(200, fmt.Sprintf("h%d;", i))
+			case op == "bfw":
+				// a before-function that panics is registered, then the body is
+				// written: it fires iff this write is the one that commits the response
+				if m.status == 0 {
+					if m.depth > 0 {
+						m.nested = true
+					}
+					panic(simPanic{"before"})
+				}
+				m.write(200, fmt.Sprintf("h%d;", i))
+			case op == "xc":
+				// WriteHeader(1000): the underlying writer panics, as net/http does,
+				// unless a status has been sent already (then the call is dropped)
+				if m.status == 0 {
+					if m.depth > 0 {
+						m.nested = true
+					}
+					panic(simPanic{"badcode"})
+				}
+			case op == "hj":
+				// a failed Hijack changes nothing
 			case op == "n":
 				m.depth++
 				m.run()
 				m.depth--
 			case op == "c":
 				m.cancelled = true
+			case strings.HasPrefix(op, "pg:"):
+				if m.depth > 0 {
+					m.nested = true
+				}
+				panic(simPanic{op[3:]})
 			case strings.HasPrefix(op, "p:"):
 				if m.depth > 0 {
 					m.nested = true
@@ -239,6 +278,17 @@ func build(c Case) *app {
 					w.WriteHeader(code)
 				case op == "b":
 					_, _ = w.Write([]byte(fmt.Sprintf("h%d;", i)))
+				case op == "bfw":
+					w.(flamego.ResponseWriter).Before(func(flamego.ResponseWriter) { panic("before-boom") })
+					_, _ = w.Write([]byte(fmt.Sprintf("h%d;", i)))
+				case op == "xc":
+					w.WriteHeader(1000)
+				case op == "hj":
+					if hj, ok := w.(http.Hijacker); ok {
+						_, _, _ = hj.Hijack()
+					}
+				case strings.HasPrefix(op, "pg:"):
+					raiseFromGenerated(op[3:])
 				case op == "n":
 					ctx.Next()
 				case op == "c":
@@ -302,6 +352,21 @@ type resp struct {
 
 func serve(a *app, path string) (r resp) { return serveM(a, "GET", path) }
 
+// strictSpy is the spy with two traits of net/http's own writer: an invalid
+// status code panics, and Hijack exists but may fail.
+type strictSpy struct{ *rt.Spy }
+
+func (s strictSpy) WriteHeader(code int) {
+	if code < 100 || code > 999 {
+		panic(fmt.Sprintf("invalid WriteHeader code %v", code))
+	}
+	s.Spy.WriteHeader(code)
+}
+
+func (s strictSpy) Hijack() (net.Conn, *bufio.ReadWriter, error) {
+	return nil, nil, errors.New("hijacking is not supported on this connection")
+}
+
 func serveM(a *app, method, path string) (r resp) {
 	spy := rt.NewSpy()
 	req := rt.NewRequest(method, path, nil)
@@ -311,7 +376,7 @@ func serveM(a *app, method, path string) (r resp) {
 	req = req.WithContext(ctx)
 	func() {
 		defer func() { r.escaped = recover() }()
-		a.f.ServeHTTP(spy, req)
+		a.f.ServeHTTP(strictSpy{spy}, req)
 	}()
 	r.status = spy.Status()
 	r.body = string(spy.Body)
@@ -507,8 +572,11 @@ func genCase(t *rapid.T) Case {
 				h.Ops = append(h.Ops, "b")
 			case w < 7:
 				h.Ops = append(h.Ops, fmt.Sprintf("s%d", []int{200, 201, 404, 503}[rapid.IntRange(0, 3).Draw(t, "code")]))
+			case w < 10:
+				pre := []string{"p:", "p:", "p:", "pg:"}[rapid.IntRange(0, 3).Draw(t, "pfrom")]
+				h.Ops = append(h.Ops, pre+kinds[rapid.IntRange(0, len(kinds)-1).Draw(t, "kind")])
 			case w < 11:
-				h.Ops = append(h.Ops, "p:"+kinds[rapid.IntRange(0, len(kinds)-1).Draw(t, "kind")])
+				h.Ops = append(h.Ops, []string{"bfw", "xc", "hj", "hj"}[rapid.IntRange(0, 3).Draw(t, "odd")])
 			default:
 				if h.Shape == "" {
 					h.Ops = append(h.Ops, "inj")
